@@ -76,19 +76,7 @@ func (h *History) UnmarshalXML(d *xml.Decoder, start xml.StartElement) error {
 	}
 
 	// Consume remaining data until element end
-	for {
-		t, err := d.Token()
-		if err != nil {
-			return err
-		}
-
-		switch tt := t.(type) {
-		case xml.EndElement:
-			if tt == start.End() {
-				return nil
-			}
-		}
-	}
+	return d.Skip()
 }
 
 func (h History) MarshalXML(e *xml.Encoder, start xml.StartElement) (err error) {
